@@ -616,6 +616,10 @@ var (
 	randomIDs    = []uint32{3, 4, 1, 16777251, 16777238, 16777302, 999, bigID, relayID, 2, 5, 16777216}
 )
 
+// local addresses of transports that are not ip:port (a Unix-domain socket, an in-memory pipe):
+// only used together with configured host addresses
+var oddEndpoints = []string{"pipe", "/run/diameter.sock", "@diameter"}
+
 func ptr(v uint32) *uint32 { return &v }
 
 func mix(i uint64) uint64 { // splitmix64: decorrelates the secondary dimensions from the enumeration order
@@ -634,6 +638,9 @@ func secondary(c *Case, i uint64) {
 	c.Configured = configs[pick(len(configs))]
 	c.Singular = len(c.Configured) == 1 && pick(2) == 0
 	c.EmptyList = len(c.Configured) == 0 && pick(2) == 0
+	if len(c.Configured) > 0 && pick(6) == 0 {
+		c.Endpoint = oddEndpoints[pick(len(oddEndpoints))] // a transport without an ip:port local address; the configured addresses do not depend on it
+	}
 	c.HbH = idPool[pick(len(idPool))]
 	c.E2E = idPool[pick(len(idPool))]
 	c.Ident = pick(len(idents))
@@ -747,6 +754,9 @@ func genCase(t *rapid.T) Case {
 	c.Singular = len(c.Configured) == 1 && rapid.Bool().Draw(t, "singular")
 	c.EmptyList = len(c.Configured) == 0 && rapid.Bool().Draw(t, "empty-list")
 	c.Endpoint = rapid.SampledFrom(endpointsAll).Draw(t, "endpoint")
+	if len(c.Configured) > 0 && rapid.IntRange(0, 5).Draw(t, "odd-endpoint") == 0 {
+		c.Endpoint = rapid.SampledFrom(oddEndpoints).Draw(t, "odd-endpoint-name")
+	}
 	c.HbH = rapid.OneOf(rapid.SampledFrom(idPool), rapid.Uint32()).Draw(t, "hbh")
 	c.E2E = rapid.OneOf(rapid.SampledFrom(idPool), rapid.Uint32()).Draw(t, "e2e")
 	c.Together = rapid.Bool().Draw(t, "together")
@@ -821,6 +831,11 @@ func classify(c Case) (bool, []string) {
 	switch {
 	case len(c.Configured) > 0:
 		cl = append(cl, fmt.Sprintf("configured-addresses=%d", len(c.Configured)))
+		for _, o := range oddEndpoints {
+			if c.Endpoint == o {
+				cl = append(cl, "configured-addresses-on-a-transport-without-ip-port-address")
+			}
+		}
 		if c.Singular && len(c.Configured) == 1 {
 			cl = append(cl, "configured-through-Settings.HostIPAddress")
 		}
